@@ -4,6 +4,10 @@ import json
 from . import common, ref
 
 
+# the injected Err is one of the crate's own error values, rotated so that no error variant is special
+ERR_VARIANTS = ["ShouldBeBool", "ParamInvalid", "ShouldBeNumber", "DivideByZero", "FnNotRegistered", "InvalidInteger", "ShouldBeList", "NotReference", "ShouldBeString", "InvalidFloat"]
+
+
 def value_class(v):
     t = v[0]
     if t == "n":
@@ -140,7 +144,7 @@ def run_programs(prop, name, progs, profile, ctx_vars=None, ctx_fns=None, pre=()
         steps.append(c)
         e = {"op": "exec", "ctx": i, "text": p["text"], "want": want}
         if p.get("fault"):
-            e["fault"] = {"k": p["fault"][0], "kind": p["fault"][1]}
+            e["fault"] = {"k": p["fault"][0], "kind": p["fault"][1], "variant": ERR_VARIANTS[(p["fault"][0] + len(p["text"])) % len(ERR_VARIANTS)]}
         steps.append(e)
     wd = common.workdir(prop)
     recs, events, _ = common.run_batch(steps, wd, name, profile, pre=pre, timeout=timeout)
